@@ -57,6 +57,7 @@ META = {
 
 NSTATES = 4
 NCLEAN = 2
+DEFAULT_CLEAN = 2    # mixin only: no cleanup given to start_machine -> HasStates.on_cleanup (on_error / on_restart / on_stop)
 IDLE0 = [100, '']
 # status attached to the state functions of the module (st_0 and st_3 have none)
 HS_STATUS = {1: [340, 'state 1'], 2: [390, 'st 2']}
@@ -88,6 +89,7 @@ class Case:
         self.mod = None
         self.split = None       # judge-only race search: (slot_begin, line, slot_end, req)
         self.split_state = None
+        self.fin_seen = None    # what the last final_status call declared (default cleanup of the mixin)
         self.lock_waits = 0     # how often a thread had to wait for the pre-empted request to release the lock
 
     # ---- outcomes -----------------------------------------------------------------
@@ -131,8 +133,9 @@ class Case:
                 kwds = {'a%d' % k: v for k, v in kw}
                 if self.hs:
                     self.events.append(['reqstart'])
+                    if cl != DEFAULT_CLEAN:     # otherwise: rely on start_machine's own default, self.on_cleanup
+                        kwds['cleanup'] = None if cl is None else getattr(self.mod, 'cl_%d' % cl)
                     self.mod.start_machine(getattr(self.mod, 'st_%d' % s),
-                                           cleanup=None if cl is None else getattr(self.mod, 'cl_%d' % cl),
                                            status=None if ovr is None else (ovr[0], ovr[1]), **kwds)
                     self.events.append(['reqdone', True])
                 else:
@@ -211,7 +214,21 @@ def sid_of(func):
         return None
     if id(func) in _SID:
         return _SID[id(func)]
+    if func.__name__ == 'on_cleanup':
+        return DEFAULT_CLEAN
     return int(func.__name__.split('_')[1])
+
+
+_EXC_REPR = None
+
+
+def canon_text(text):
+    """status texts made from the repr of an exception (HasStates.on_error) -> '<reason>'"""
+    global _EXC_REPR
+    if _EXC_REPR is None:
+        import re
+        _EXC_REPR = re.compile(r'^[A-Za-z_]\w*(Error|Exception)\(')
+    return '<reason>' if _EXC_REPR.match(text) else text
 
 
 # ---- a second real thread that executes a request while the cycle thread waits -------------------
@@ -479,10 +496,32 @@ def get_classes():
         v = self._state_machine.status
         c = CUR
         if c is not None:
-            c.events.append(['status', [int(v[0]), str(v[1])]])
+            c.events.append(['status', [int(v[0]), canon_text(str(v[1]))]])
         return v
+
+    def on_cleanup(self, sm):
+        # the default cleanup of the mixin, observed like a cleanup function: what it declares and returns
+        c = CUR
+        c.events.append(['cleanup', DEFAULT_CLEAN])
+        c.fin_seen = None
+        c.suppress += 1
+        try:
+            ret = HasStates.on_cleanup(self, sm)
+        finally:
+            c.suppress -= 1
+        c.events.append(['ret', 'finish' if ret is fstates.Finish else ['next', sid_of(ret)] if callable(ret) else 'bad',
+                         c.fin_seen])
+        return ret
+
+    def final_status(self, code=Drivable.Status.IDLE, text=''):
+        c = CUR
+        if c is not None:
+            c.fin_seen = [int(Status(code)), canon_text(str(text))]
+        return HasStates.final_status(self, code, text)
     ns['state_transition'] = state_transition
     ns['read_status'] = read_status
+    ns['on_cleanup'] = on_cleanup
+    ns['final_status'] = final_status
     Mod = type('Mod', (HasStates, Drivable), ns)
 
     class Started(RuntimeError):
@@ -610,6 +649,8 @@ EX_OPS = [['cycle'],
           ['req', ['start', 0, 0, [[0, 1]], None]],
           ['req', ['start', 3, None, [[0, 2], [1, 5]], None]],
           ['req', ['stop', [100, 'stopped']]]]
+# mixin: the start without cleanup argument runs with the mixin's default cleanup (on_cleanup)
+EX_OPS_HS = [EX_OPS[0], EX_OPS[1], ['req', ['start', 3, DEFAULT_CLEAN, [[0, 2], [1, 5]], None]], EX_OPS[3]]
 EX_STATE = [{'posts': [], 'fin': None, 'ret': ['next', 1]},
             {'posts': [], 'fin': None, 'ret': 'retry'},
             {'posts': [], 'fin': None, 'ret': 'finish'},
@@ -645,7 +686,7 @@ def exhaustive(hs, depth, maxloops=2):
             return pick(EX_STATE if kind == 'state' else EX_CLEAN)
 
         def next_op():
-            return pick(EX_OPS)
+            return pick(EX_OPS_HS if hs else EX_OPS)
         case = {'hasStates': hs, 'maxloops': maxloops, 'script': [], 'ops': [], 'env': []}
         try:
             events, errors, script, ops = impl_run(case, choose=choose, next_op=next_op)
@@ -667,7 +708,7 @@ def gen_req(rng, hs):
     if rng.random() < 0.65:
         kw = [[k, rng.randint(-3, 3)] for k in sorted(rng.sample(range(4), rng.choice([0, 1, 1, 2, 3])))]
         ovr = gen_status(rng) if hs and rng.random() < 0.25 else None
-        return ['start', rng.randrange(NSTATES), rng.choice([None, 0, 0, 1]), kw, ovr]
+        return ['start', rng.randrange(NSTATES), rng.choice([None, 0, 0, 1, DEFAULT_CLEAN] if hs else [None, 0, 0, 1]), kw, ovr]
     return ['stop', [100, rng.choice(['stopped', 'halt'])] if rng.random() < 0.8 else [150, 'parked']]
 
 
@@ -835,7 +876,8 @@ def report_violation(ctx, res, case, events, errors, bad):
 # ---- entry points -----------------------------------------------------------------------------------------
 def run(ctx):
     res = Result()
-    res.rule = ('exhaustive: every execution with at most D choices (ops from {cycle, start A with cleanup, start B, stop}; '
+    res.rule = ('exhaustive: every execution with at most D choices (ops from {cycle, start A with cleanup, start B '
+                '[mixin: with the default cleanup on_cleanup], stop}; '
                 'behaviours of each call from {next, retry, finish, non-callable, raise} resp. {None, state, raise}), maxloops=2, '
                 'bare machine and HasStates module; random: op sequences up to depth 40 with requests from inside the '
                 'functions, final_status, requests injected at the reads of next_task (same thread or a real second thread); '
